@@ -198,3 +198,50 @@ Print Assumptions C04_kernel_GetAlignment.
 Theorem C04_kernel_GetErasePolarity : forall attrs, go_FirmwareVolume_GetErasePolarity attrs = Ffs.fv_polarity attrs.
 Proof. exact go_FirmwareVolume_GetErasePolarity_tie. Qed.
 Print Assumptions C04_kernel_GetErasePolarity.
+
+(* ---------------------------------------------------------------------------------------- *)
+(* The flash-descriptor clause ("descriptor plus regions tile the flash without gap or overlap"),
+   for the Intel flash image entry shape of uefi.Parse (Model/FlashImage.v over Model/TightenMe.v:
+   FindSignature, ParseFlashDescriptor, NewFlashImage with its slot loop, sort and fillRegionGaps;
+   the BIOS region is kept as its bytes here - its inside is what the theorems above are about,
+   applied to [flash_bios_bytes img]).  For every image of whole 4 KiB blocks below 256 MiB
+   ([good_img]) on which the flash layout exists:
+     - the descriptor node is the first 4 KiB;
+     - descriptor followed by the region buffers, in tree order, is the image;
+     - the regions follow each other from 4 KiB to the end of the image by their REPORTED block
+       ranges ([chain]: each starts where the previous one ends - no gap, no overlap);
+     - every region node - declared or filled-in gap - reports a non-empty block range and holds
+       exactly the bytes of the image in that range ([region_at]).
+   An image whose size is NOT a whole number of blocks is outside [good_img] for a reason: the
+   code at HEAD returns, for such an image with an uncovered tail, a last region whose reported
+   range is empty (Limit = Base - 1) while it holds the partial block
+   (fixes/C04-flash-partial-trailing-block.diff; oracle p_flash_partition). *)
+From Fiano Require Import Gen.Consts Model.TightenMe Model.FlashImage Proofs.TightenMeProofs
+  Proofs.FlashImageProofs Proofs.C04FlashProofs.
+
+Theorem C04_flash_partition : forall img t, good_img img -> flash_layout img = Ok t ->
+  t_ifd t = zfirstn ifd_desc_len img /\
+  t_ifd t ++ concat (map region_buf (t_regions t)) = img /\
+  chain (t_slots t) (t_regions t) ifd_desc_len = Some (zlen img) /\
+  Forall (region_at img (t_slots t)) (t_regions t).
+Proof. exact c04_flash_partition. Qed.
+Print Assumptions C04_flash_partition.
+
+(* non-vacuity: descriptor, one undeclared block (becomes a gap region), one BIOS block *)
+Definition ex4_slots : bytes :=
+  [0; 0; 1; 0] ++ (le_enc 2 2 ++ le_enc 2 2) ++ concat (repeat (le_enc 2 32767 ++ le_enc 2 0) 14).
+Definition ex4_flash : bytes :=
+  Eval vm_compute in
+  splice 16 ifd_signature (splice 20 [0; 0; 4; 0; 8; 0; 0; 0] (splice 64 ex4_slots (zrepeat 255 4096)))
+  ++ zrepeat 17 4096 ++ zrepeat 34 4096.
+
+Example ex_c04_flash_good : good_img ex4_flash.
+Proof. split; [vm_compute; reflexivity|]. split; [exists 3; vm_compute; reflexivity|vm_compute; reflexivity]. Qed.
+
+Example ex_c04_flash_layout :
+  match flash_layout ex4_flash with
+  | Ok t => (length (t_regions t) =? 2)%nat &&
+            forallb (fun r => fr_base (region_fr (t_slots t) r) <=? fr_limit (region_fr (t_slots t) r)) (t_regions t)
+  | _ => false
+  end = true.
+Proof. vm_compute. reflexivity. Qed.
